@@ -858,6 +858,100 @@ def _run(chk, wd, proved):
     chk.note('routing: %d exhaustive pool_events lists (every list of length 1-3 over each family + EVENT), %d random' %
              (n_pool_lists_exh, len(pool_lists) - n_pool_lists_exh))
 
+    # ---------------- K. pools removed and added again at run time
+    wd_c, wd_m = part('world', 'list wop * evclass * Z * Z', 'check_world')
+    MENU = [['PROCESS_STATE'], ['PROCESS_STATE', 'TICK'], ['PROCESS_STATE_RUNNING', 'PROCESS_STATE'], ['EVENT'],
+            ['TICK_5', 'TICK'], ['PROCESS_GROUP', 'PROCESS_LOG'], ['PROCESS_STATE_STARTING', 'TICK_60', 'PROCESS_STATE_STARTING'],
+            ['PROCESS_COMMUNICATION', 'SUPERVISOR_STATE_CHANGE', 'REMOTE_COMMUNICATION']]
+    cycle = [PSC.STARTING, PSC.RUNNING, PSC.EXITED, PSC.STARTING, PSC.BACKOFF, PSC.FATAL, PSC.STOPPED]
+
+    def block(i):
+        """Emissions after the i-th pool operation: a real state change, a tick that crosses
+        5 s and 60 s slices, one event of another family."""
+        extra = [('log', 'stdout', b'o%d' % i), ('comm', 'stderr', b'c%d' % i), ('stopping',), ('remote', 't', 'd%d' % i),
+                 ('log', 'stderr', b'e%d' % i), ('running',)][i % 6]
+        return [('state', cycle[i % len(cycle)]), ('tick', 1000.0 + 61.0 * (i + 1)), extra]
+
+    def history_from(pool_ops):
+        ops = [('tick', 1000.0)]
+        for i, po in enumerate(pool_ops):
+            ops.append(po)
+            ops.extend(block(i))
+        return ops
+
+    histories = []
+    for ta in MENU:
+        for tb in MENU:
+            histories.append(history_from([('add_pool', 'A', ta), ('add_pool', 'B', tb), ('remove_pool', 'A'),
+                                           ('add_pool', 'A', ta), ('remove_pool', 'B'), ('remove_pool', 'A')]))
+    n_hist_exh = len(histories)
+    for _ in range(40 if quick else 1200):
+        alive = {}
+        pool_ops = []
+        for _ in range(rng.randrange(3, 9)):
+            nm = rng.choice('ABC')
+            if nm in alive and rng.random() < 0.6:
+                pool_ops.append(('remove_pool', nm))
+                del alive[nm]
+            elif rng.random() < 0.1:
+                pool_ops.append(('remove_pool', nm))     # possibly absent: KeyError, nothing changes
+                alive.pop(nm, None)
+            else:
+                ty = rng.choice(MENU + [[rng.choice(all_type_names) for _ in range(rng.randrange(1, 4))]])
+                pool_ops.append(('add_pool', nm, ty))    # possibly present already: refused, nothing changes
+                alive.setdefault(nm, ty)
+        histories.append(history_from(pool_ops))
+    name_id = {'A': 1, 'B': 2, 'C': 3}
+    seen_w = set()
+    for ops in histories:
+        emitted, incs, results = I.run_pool_history(ops)
+        chk.dist('world:pool_ops%d' % len([o for o in ops if o[0] in ('add_pool', 'remove_pool')]))
+        parsed_by_inc = []
+        bad = None
+        for i, inc in enumerate(incs):
+            real_types = [real_by_name[t] for t in inc['types']]
+            parsed = listener_stream_bytes(inc['stream'])
+            want = [(DOCUMENTED_NAMES.get(cn, str(name_of.get(real_by_name[cn]))), pl)
+                    for cn, pl, _, alive, _oi in emitted
+                    if i in alive and any(issubclass(real_by_name[cn], t) for t in real_types)]
+            got = None if parsed is None else [(dict(kvs).get(b'eventname', b'').decode('latin-1'), p.decode('utf-8', 'replace'))
+                                               for kvs, p in parsed]
+            serials = [] if parsed is None else [dict(kvs).get(b'serial') for kvs, _ in parsed]
+            parsed_by_inc.append(serials)
+            if (got != want or len(set(serials)) != len(serials)) and bad is None:
+                bad = {'pool': inc['name'], 'incarnation': i, 'pool_events': [t for t in inc['types']],
+                       'envelopes_received': got, 'expected': want,
+                       'serials_received': [x.decode('latin-1') if x else x for x in serials]}
+        distinct.add(('world', tuple(results), len(emitted)))
+        if 'ValueError' in results:
+            bad = bad or {'raised': 'ValueError out of remove_process_group'}
+        if bad is not None:
+            chk.violation(dict(bad, kind='after pools were removed / added at run time, a subscribed pool did not receive exactly one '
+                                         'envelope per matching event, or a removed pool still received one',
+                               history=[_jsonable(list(o)) for o in ops], results=[str(r) for r in results],
+                               emitted=[[cn, pl] for cn, pl, _, _, _ in emitted]))
+        # model: envelopes per (event, pool name) after the pool operations performed so far
+        for cn, pl, serial, alive, oi in emitted:
+            prefix = [o for o in ops[:oi + 1] if o[0] in ('add_pool', 'remove_pool')]
+            wterm = coq_list(('(WAdd %d %s)' % (name_id[o[1]], coq_list(cls_term(getattr(events.EventTypes, t)) for t in o[2])))
+                             if o[0] == 'add_pool' else '(WRemove %d)' % name_id[o[1]] for o in prefix)
+            for nm, pid_ in name_id.items():
+                # envelopes on the stdin of every incarnation of that name (removed ones must stay silent)
+                cnt = 0
+                if serial is not None:
+                    for i, inc in enumerate(incs):
+                        if inc['name'] == nm:
+                            cnt += len([x for x in parsed_by_inc[i] if x == b'%d' % serial])
+                key = (wterm, cn, pid_, cnt)
+                if key in seen_w:
+                    continue
+                seen_w.add(key)
+                wd_c.append('(%s, %s, %d, %s)' % (wterm, cn, pid_, zlit(cnt)))
+                wd_m.append({'pool_ops': [_jsonable(list(o)) for o in prefix], 'event_class': cn, 'pool': nm, 'envelopes': cnt})
+    chk.note('world: %d structured histories (every pair of %d subscription menus; add A, add B, remove A, add A, remove B, remove A '
+             'with a state change, a tick and one more event after each), %d random three-pool histories' %
+             (n_hist_exh, len(MENU), len(histories) - n_hist_exh))
+
     # ---------------- compare everything inside Coq
     total = 0
     for name, (ctype, fn, cases, meta) in parts.items():
